@@ -79,6 +79,7 @@ def uhistCmd (ws : List String) : String :=
           | some 'm' => match pool.getD (idxOf op) none with
             | none => (c, ext, obs ++ ["m"])
             | some d => (c.setMetadata d, ext, obs ++ ["m"])
+          | some 'M' => (c, ext, obs ++ ["Me"])     -- unreadable metadata: refused, nothing changes
           | some 'i' => let (m, s) := c.info; (c, ext, obs ++ [s!"I{m},{s}"])
           | _ => (c, ext, obs ++ ["bad-op"])
         let (c, ext, obs) := ops.foldl step (c0, [], [])
